@@ -30,7 +30,8 @@ RULE = (
     'Objects come from (a) text: every route of every /repo/etc/exabgp/*.conf that loads, and textgen route text for the IP families; '
     '(b) decode-born: every NLRI field and attribute value found in the /repo/qa raw UPDATEs (split by refwire) as seeds, their one/two-edit mutations re-framed to the '
     "family's outer length prefix, and byte-level generators per family layout (IP with labels/RD/path-id, EVPN 1-5, VPLS, RTC, MVPN, MUP, SR-policy, FlowSpec incl. >240 byte rules, BGP-LS(+VPN)) "
-    'and per attribute code; only inputs the exabgp decoder accepts are kept; (c) whole qa UPDATE bodies through UpdateCollection (MP_REACH / MP_UNREACH). '
+    'and per attribute code; only inputs the exabgp decoder accepts are kept; (c) the make_* / create / from_cidr factories of EVPN 1-5, VPLS, SR-policy, MVPN, MUP, INET, Label, IPVPN with drawn field values, '
+    'whose fields must be readable back before and after the wire; (d) whole qa UPDATE bodies through UpdateCollection (MP_REACH / MP_UNREACH). '
     'Each object is packed, decoded, re-packed and decoded again under a Negotiated built from two OPENs (with and without ADD-PATH, ASN4 and 2-byte), '
     'and paired with a variant differing in exactly one of family, path-id, prefix, RD, label or one byte. '
     'Non-trivial = the object decoded is not the empty/default value of its type (an NLRI longer than its bare length prefix, an attribute with a non-empty value)'
@@ -314,6 +315,25 @@ def _nlri_laws(fam, o, neg, addpath: bool, action, x: bytes | None, canonical: b
     return b
 
 
+def decode_side_laws(fam, o, x: bytes, neg, addpath: bool, action, what: str) -> None:
+    """what has to hold of an accepted input before anything is packed: a second decode gives an equal object that renders the same"""
+    unpacker = owner(FAMILY_CLASS[fam], 'unpack_nlri')
+    try:
+        twin, _left = unpack_one(fam, x, action, addpath, neg)
+    except Exception as exc:  # noqa: BLE001
+        raise V(f'{unpacker}:second-decode:{type(exc).__name__}', f'{what}: {x.hex()} accepted once, then {exc!r}') from exc
+    if twin is NLRI.INVALID or type(twin) is not type(o):
+        raise V(f'{unpacker}:second-decode:other-type', f'{what}: {x.hex()} decoded as {type(o).__name__} then as {type(twin).__name__}')
+    same(o, twin, f'{what} two decodes of {x.hex()}')
+    r1, r1b, r2 = render(o, f'{what} {x.hex()}'), render(o, f'{what} {x.hex()}'), render(twin, f'{what} {x.hex()}')
+    for name in r1:
+        if r1[name] != r1b[name]:
+            raise V(f'{render_owner(o, name)}:not-repeatable', f'{what} {x.hex()}: {r1[name][:200]} then {r1b[name][:200]}')
+        if r1[name] != r2[name]:
+            raise V(f'{render_owner(o, name)}:differs-between-copies', f'{what} {x.hex()}: {r1[name][:200]} vs {r2[name][:200]}')
+    parse_json(render_owner(o, 'json'), r1['json'], f'{what} {x.hex()}')
+
+
 def nlri_json_content(fam, o, b: bytes, addpath: bool, action, doc, what: str) -> None:
     """a rendering which shows some other object's data is not a function of this object's bytes (stale / shared caches)"""
     tag = render_owner(o, 'json')
@@ -502,6 +522,7 @@ def check_nlri(case: dict) -> dict:
             continue
         count += 1
         what = f'{source} {fam} addpath={addpath}'
+        decode_side_laws(fam, o, x, neg, addpath, action, what)
         nlri_laws(fam, o, neg, addpath, action, x, encoder, what)
         if first is None:
             first = (o, x)
@@ -647,7 +668,7 @@ def attr_laws(code: int, flag: int, a, neg, x: bytes | None, canonical: bool, wh
     return b
 
 
-def attr_json_content(code: int, a, b: bytes, doc, what: str) -> None:
+def attr_json_content(code: int, a, b: bytes, doc, what: str, values: bool = True) -> None:
     """the JSON member is named after this attribute and, for the plain types, says what the bytes say"""
     tag = f'attr:{code}:json'
     if not isinstance(doc, dict) or len(doc) != 1:
@@ -658,6 +679,8 @@ def attr_json_content(code: int, a, b: bytes, doc, what: str) -> None:
     if key not in names:
         raise V(f'{tag}:content', f'{what} {b.hex()}: member {key!r}, expected one of {names}')
     expect = None
+    if not values:
+        return  # b is not canonical here: only the member name is compared
     if code in (4, 5) and len(b) == 4:
         expect = struct.unpack('!L', b)[0]
     elif code == 1 and len(b) == 1 and b[0] < 3:
@@ -725,6 +748,19 @@ def check_attr(case: dict) -> dict:
         return {'nontrivial': False, 'classes': classes + [f'{tag}:refused']}
     if a is None or getattr(a, 'ID', code) != code:
         return {'nontrivial': False, 'classes': classes + [f'{tag}:refused']}
+    try:
+        twin = attr_unpack(code, flag, x, neg)
+    except Exception as exc:  # noqa: BLE001
+        raise V(f'{tag}:second-decode:{type(exc).__name__}', f'{what}: {x.hex()} accepted once, then {exc!r}') from exc
+    attr_same(tag, a, twin, f'{what} two decodes of {x.hex()}')
+    r1, r1b, r2 = attr_render(tag, a, what), attr_render(tag, a, what), attr_render(tag, twin, what)
+    for name in r1:
+        if r1[name] != r1b[name]:
+            raise V(f'{tag}:{name}:not-repeatable', f'{what} {x.hex()}: {r1[name][:200]} then {r1b[name][:200]}')
+        if r1[name] != r2[name]:
+            raise V(f'{tag}:{name}:differs-between-copies', f'{what} {x.hex()}: {r1[name][:200]} vs {r2[name][:200]}')
+    if r1['json']:
+        attr_json_content(code, a, x, parse_json(f'{tag}:json', r1['json'], f'{what} {x.hex()}'), what, values=False)
     attr_laws(code, flag, a, neg, x, encoder, what)
     classes += [tag, f'{tag}:{type(a).__name__}']
     if not asn4:
@@ -1232,6 +1268,9 @@ def nlri_fixed_cases() -> list:
         {'kind': 'nlri', 'afi': 25, 'safi': 65, 'hex': '00120001c0a8c901007b000500010008029c4100', 'addpath': False, 'action': 'announce', 'source': 'pinned:vpls-longer-than-17', 'encoder': False},
         {'kind': 'nlri', 'afi': 16388, 'safi': 72, 'hex': '0103002f0000fde8000000010100000000000000040100001a020000040000fc13020100040000008b02030006192168251231', 'addpath': False, 'action': 'announce', 'source': 'pinned:bgp-ls-vpn-unknown-type', 'encoder': False},
     ]
+    # families the vectors on disk do not reach: one hand-written NLRI each, so that no registered family depends on the random part
+    for fam, raw in (((1, 2), '18e00001'), ((2, 2), '20ff0e0000'), ((2, 4), '3800064120010db8'), ((1, 132), '600000fde80002fde800000001'), ((1, 132), '00')):
+        cases.append({'kind': 'nlri', 'afi': fam[0], 'safi': fam[1], 'hex': raw, 'addpath': False, 'action': 'announce', 'source': 'pinned:hand-written', 'encoder': False, 'variants': standard_variants(fam)})
     for fam in FAMILIES:
         for seed in corpus.NLRI_SEEDS.get(fam, []):
             cases.append({'kind': 'nlri', 'afi': fam[0], 'safi': fam[1], 'hex': seed['hex'], 'addpath': seed['addpath'], 'action': seed['action'], 'source': seed['source'], 'encoder': seed['encoder']})
@@ -1248,6 +1287,18 @@ def attr_fixed_cases() -> list:
         {'kind': 'attr', 'code': 40, 'flags': 0xC0, 'hex': '0500220001001e8020010db8000200020000000000000000000018000c0006401810000000', 'asn4': True, 'source': 'pinned:srv6-unknown-sub-sub-tlv', 'encoder': False},
         {'kind': 'attr', 'code': 23, 'flags': 0xC0, 'hex': '000f00240c050000000000640d06100005dc01008000110009060000000000010106000003e81100', 'asn4': True, 'source': 'pinned:sr-policy-unknown-sub-tlv', 'encoder': False},
     ]
+    # attribute codes the vectors on disk do not reach
+    for code, flags, raw, asn4 in (
+        (17, 0xC0, '02020000fde800010000', False),
+        (18, 0xC0, '0001000001020304', False),
+        (22, 0xC0, '000600064001020304', True),
+        (22, 0xC0, '0000000000', True),
+        (26, 0x80, '01000b0000000000000064', True),
+        (25, 0xC0, '000220010db80000000000000000000000010064', True),
+        (7, 0xC0, 'fde801020304', False),
+        (2, 0x40, '0202fde80001', False),
+    ):
+        cases.append({'kind': 'attr', 'code': code, 'flags': flags, 'hex': raw, 'asn4': asn4, 'source': 'pinned:hand-written', 'encoder': False})
     for code in sorted(corpus.ATTR_SEEDS):
         for seed in corpus.ATTR_SEEDS[code]:
             cases.append({'kind': 'attr', 'code': code, 'flags': seed['flags'], 'hex': seed['hex'], 'asn4': seed['asn4'], 'source': seed['source'], 'encoder': seed['encoder']})
@@ -1405,9 +1456,18 @@ def extra_coverage(merged) -> dict:
         per_type[label] = classes.get(label, 0)
         if not classes.get(label):
             missing.append(label)
+    # a type whose every case breaks a law has no passing case to count: name it from the failing cases instead
+    failing = set()
+    for v in getattr(merged, 'violations', []):
+        case = v.get('case') or {}
+        if case.get('kind') == 'nlri':
+            failing.add(f'nlri:{case["afi"]}/{case["safi"]}')
+        elif case.get('kind') == 'attr':
+            failing.add(f'attr:{case["code"]}')
     return {
+        'registered_but_met_only_in_failing_cases': sorted(m for m in missing if m in failing),
         'registered_families': [list(f) for f in FAMILIES],
         'registered_attribute_codes': ATTR_CODES,
         'cases_per_registered_type': per_type,
-        'registered_but_not_exercised': missing,
+        'registered_but_not_exercised': sorted(m for m in missing if m not in failing),
     }
